@@ -1,4 +1,6 @@
 """C34 RMA windows behave like shared memory under their locks."""
+import os
+
 from hypothesis import strategies as st
 
 from .. import core, mpi2, rma
@@ -7,13 +9,17 @@ accop = st.fixed_dictionaries({"f": st.sampled_from(["acc", "getacc", "fop", "ca
                               optional={"op": st.sampled_from(rma.OPS), "v": st.integers(0, 40), "noop": st.booleans(), "j": st.integers(0, 2),
                                         "hit": st.integers(0, 2)})
 
+raceop = st.fixed_dictionaries({}, optional={"f": st.integers(0, 3), "cmp": st.integers(0, 3), "noop": st.booleans(), "ga": st.booleans()})
+
 plan = st.fixed_dictionaries({"t": st.sampled_from([0, 0, 0, 1, 1, 2, 3]), "i": st.sampled_from([0, 0, 0, 1, 1, 2, 3, 5, 7]),
-                              "kind": st.sampled_from(["put", "get", "accseq", "accseq", "accmulti", "putget", "rmw", "bulkput", "bulkget"])},
+                              "kind": st.sampled_from(["put", "get", "accseq", "accseq", "accmulti", "putget", "rmw", "bulkput", "bulkget", "race", "race", "race"])},
                              optional={"c": st.integers(1, 3), "o": st.lists(st.integers(0, 3), min_size=1, max_size=4), "v": st.integers(0, 40),
                                        "ops": st.lists(accop, min_size=1, max_size=4), "op": st.sampled_from(rma.COMMUTATIVE),
-                                       "order": st.integers(0, 1), "fl": st.integers(0, 1), "req": st.booleans()})
+                                       "order": st.integers(0, 1), "fl": st.integers(0, 1), "req": st.booleans(),
+                                       "fam": st.sampled_from(["cas", "cas", "op"]), "delays": st.lists(st.integers(0, 3), min_size=1, max_size=4),
+                                       "rops": st.lists(st.lists(raceop, min_size=1, max_size=2), min_size=1, max_size=4)})
 
-round_ = st.fixed_dictionaries({"mode": st.sampled_from(["fence", "lock", "lock", "lock", "lockall", "lockshared"]),
+round_ = st.fixed_dictionaries({"mode": st.sampled_from(["fence", "lock", "lock", "lock", "lockall", "lockall", "lockshared", "lockshared"]),
                                 "plans": st.one_of(st.lists(plan, min_size=1, max_size=2), st.lists(plan, min_size=1, max_size=6))},
                                optional={"picks": st.lists(st.integers(0, 5), min_size=1, max_size=6), "chain": st.booleans(), "a0": st.booleans(),
                                          "a1": st.booleans(), "fa": st.booleans(), "req": st.booleans()})
@@ -43,14 +49,19 @@ class C34(core.Prop):
             "ordered by MPI's same-origin accumulate ordering), accmulti (several origins, Accumulate with one commutative op), putget "
             "(passive modes: Put, Win_flush, Get or Get, flush, Put by one origin), rmw (exclusive-lock rounds: several origins each do Get, "
             "flush, Put(fetched + addend) inside their own exclusive epoch on one element: final value = sum, fetched values = partial sums "
-            "of SOME serial order); request-based variants (Rput...) + Wait in passive "
+            "of SOME serial order), race (>= 2 origins, preferably remote, issue 1-2 ATOMIC calls each on ONE element in the same epoch, with drawn "
+            "simulated delays: Compare_and_swap with matching / chained / non-matching compare values + atomic reads, or ONE operation X "
+            "through Accumulate / Get_accumulate / Fetch_and_op + NO_OP reads, i.e. what accumulate_ops=same_op_no_op allows; judged by "
+            "LINEARIZABILITY: some sequential order respecting each origin's order must explain every fetched value and the final content; "
+            "the element is left alone afterwards and must keep that content); request-based variants (Rput...) + Wait in passive "
             "rounds.  The calls of an origin towards one target are interleaved in a drawn order that keeps every plan's own order.  "
             "With a bulk area (4096 / 16384 extra elements after the small ones, described by the seed of a pattern): bulkput / bulkget of the "
             "whole area, long transfers that are still in flight when a broken synchronisation call returns.  After a fence round every "
             "rank reads its window AT ONCE; after a passive round: barrier, then the read inside an exclusive lock on itself; the fetched "
             "values are collected; barrier.  Oracle: interpreter over lists of integers (wrapping unsigned arithmetic; signed "
             "type restricted to small values, no PROD).  Non-trivial: two different origins update the same target element in "
-            "successive (or concurrent, serialised by the lock) EXCLUSIVE lock epochs.  Distinct = distinct canonical JSON.")
+            "successive (or concurrent, serialised by the lock) EXCLUSIVE lock epochs, or >= 2 origins race atomic calls on one element in a "
+            "shared epoch (lock_all, shared locks, fence).  Distinct = distinct canonical JSON.")
     assumptions = ["conflicting accesses that MPI leaves undefined (Put/Get overlapping another access of the same epoch without a flush, "
                    "different ops or fetches from several origins on one element) are not generated",
                    "a local load of the window right after the closing fence / inside an exclusive self-lock after a barrier is a valid way "
@@ -61,6 +72,8 @@ class C34(core.Prop):
         return cases(5 if tier == "quick" else 8)
 
     def fixed_cases(self, tier):
+        if os.environ.get("VF_C34_NOFIXED"):       # sensitivity measurements of the generated part alone
+            return []
         # a lonely long transfer per synchronisation mode: the target (resp. origin) has nothing else to wait for, so a
         # synchronisation call that returns before the transfer is complete shows at once
         res = []
@@ -74,6 +87,14 @@ class C34(core.Prop):
                         if chain:
                             rounds.append({"mode": "fence", "plans": [{"t": 1, "i": 0, "kind": "get", "o": [0]}]})
                         res.append({"np": np_, "W": 2, "ty": "UNSIGNED", "unit": "elem", "alloc": False, "init": 0, "bulk": 16384, "rounds": rounds})
+        # atomic races: every remote origin does Compare_and_swap(compare = old value, new = its own value) on ONE element in a shared
+        # epoch: exactly one may win; then the same with Fetch_and_op(SUM) and mixed fetch / read calls
+        for np_ in (3, 4):
+            for mode in ("lockall", "lockshared", "fence"):
+                for fam, rops in (("cas", [[{}]]), ("cas", [[{}, {"f": 3}], [{"cmp": 2}, {}]]), ("op", [[{"f": 0}], [{"f": 1}], [{"f": 2}]])):
+                    res.append({"np": np_, "W": 2, "ty": "UNSIGNED", "unit": "elem", "alloc": False, "init": 0, "bulk": 0,
+                                "rounds": [{"mode": mode, "plans": [{"t": 0, "i": 1, "kind": "race", "o": list(range(1, np_)), "fam": fam,
+                                                                      "rops": rops}]}]})
         return res
 
     def check(self, case):
